@@ -45,7 +45,10 @@ def engine_groups(ctx, depths=(0, 1, 2), seeds=12, scores=(0, 1, 2), deadlines=F
                                                 "deadline": None, "rel": rel})
                             if deadlines and k < 3:
                                 # every expiry point of this run: the deadline between any two clock reads
-                                for T in range(1, reads + 1):
+                                # (clock reads are counted on a run that can expire: with timeout=0 the deadline checks read no clock)
+                                reads_t = syn.run_engine(g, text, random.Random(sseed), scores, depth=depth, deadline=10 ** 9,
+                                                         rel=rel[0] / rel[1])[3]
+                                for T in range(1, reads_t + 1):
                                     ev2, init2, ys2, _ = syn.run_engine(g, text, random.Random(sseed), scores, depth=depth,
                                                                         deadline=T, rel=rel[0] / rel[1])
                                     if init2 != init[:len(init2)]:
